@@ -63,7 +63,23 @@ Theorem C19_keys_reachable : forall sort ops, keys (run sort ops) = loaded_after
 Proof. exact keys_reachable. Qed.
 Print Assumptions C19_keys_reachable.
 
-(* `identifier in keyring`  <=>  some loaded key carries it (or it without blanks) *)
+(* `selects i a` (Spec/Keyring_spec.v): key i carries the identifier a as it is written, or a is a fingerprint / key id / short id
+   written in groups -- its space-free form is 40, 16 or 8 hexadecimal digits -- and i carries that form (the rule of commit 48f9d25;
+   `strip` = remove every blank).  Names, comments and e-mail addresses are never compared modulo blanks. *)
+Theorem C19_selects_literal : forall i a, ~ id_shape (strip a) -> (selects i a <-> carries i a).
+Proof. exact selects_literal. Qed.
+Print Assumptions C19_selects_literal.
+
+Theorem C19_selects_grouped : forall i a, carries i (strip a) -> id_shape (strip a) -> selects i a.
+Proof. exact selects_grouped. Qed.
+Print Assumptions C19_selects_grouped.
+
+(* the model's _unspaced is the specification's rule *)
+Theorem C19_selects_unspaced : forall i a, selects i a <-> carries i a \/ carries i (unspaced a).
+Proof. exact selects_unspaced. Qed.
+Print Assumptions C19_selects_unspaced.
+
+(* `identifier in keyring`  <=>  some loaded key is selected by it *)
 Theorem C19_contains_iff : forall sort, (forall l, Permutation l (sort l)) -> forall ops a,
   containsS a (lays (run sort ops)) = true <-> exists i, In i (loaded_after ops) /\ selects i a.
 Proof. exact contains_iff. Qed.
@@ -88,6 +104,18 @@ Theorem C19_unloaded_selects_nothing : forall sort, (forall l, Permutation l (so
   containsS a (lays (run sort ops)) = false /\ get_key (run sort ops) a = None.
 Proof. exact unloaded_selects_nothing. Qed.
 Print Assumptions C19_unloaded_selects_nothing.
+
+(* `with keyring.key(message)`: the key handed out is loaded and is selected by one of the message's issuers / recipients;
+   KeyError (None) exactly when no loaded key is selected by any of them (commit 35c6008: KeyError, also for a message without issuers) *)
+Theorem C19_issuers_sound : forall sort, (forall l, Permutation l (sort l)) -> forall ops iss j,
+  get_key_issuers (run sort ops) iss = Some j -> exists a, In a iss /\ In j (loaded_after ops) /\ selects j a.
+Proof. exact issuers_sound. Qed.
+Print Assumptions C19_issuers_sound.
+
+Theorem C19_issuers_keyerror_iff : forall sort, (forall l, Permutation l (sort l)) -> forall ops iss,
+  get_key_issuers (run sort ops) iss = None <-> forall a i, In a iss -> In i (loaded_after ops) -> ~ selects i a.
+Proof. exact issuers_keyerror_iff. Qed.
+Print Assumptions C19_issuers_keyerror_iff.
 
 (* fingerprints(), fingerprints(keyhalf, keytype), len *)
 Theorem C19_fingerprints_exact : forall sort ops, fingerprints (run sort ops) None None = map kfp (loaded_after ops).
@@ -146,3 +174,31 @@ Print Assumptions C19_repo_loses_alias_observable.
 
 Example C19_repaired_keeps_alias : In (name_x, 2) (abs (lays (run isort f5_history))).
 Proof. exact repaired_keeps_alias. Qed.
+
+(* the membership / lookup rule of before commit 48f9d25 (blanks ignored in every identifier; run_old = the keyring with that
+   `alias in self`, get_key_old = its _get_key) is refuted: with only "JohnSmith" loaded, key("John Smith") hands out his key ... *)
+Theorem C19_get_sound_old_refuted :
+  exists ops a j, get_key_old (run_old isort ops) a = Some j /\ In j (loaded_after ops) /\ ~ selects j a.
+Proof. exact get_sound_old_refuted. Qed.
+Print Assumptions C19_get_sound_old_refuted.
+
+(* ... and after L "John Smith", L "JohnSmith", U "John Smith" the name "John Smith" is still `in` the keyring and selects a key *)
+Theorem C19_unloaded_selects_nothing_old_refuted :
+  exists ops a, (forall i, In i (loaded_after ops) -> ~ selects i a) /\
+    containsS_old a (lays (run_old isort ops)) = true /\ get_key_old (run_old isort ops) a <> None.
+Proof. exact unloaded_selects_nothing_old_refuted. Qed.
+Print Assumptions C19_unloaded_selects_nothing_old_refuted.
+
+(* the old reading was strictly more permissive *)
+Theorem C19_selects_implies_old : forall i a, selects i a -> selects_old i a.
+Proof. exact selects_implies_old. Qed.
+Print Assumptions C19_selects_implies_old.
+
+Example C19_repaired_names_literal :
+  get_key (run isort [Load keyJS]) name_john_smith = None /\
+  containsS name_john_smith (lays (run isort js_history)) = false /\
+  get_key (run isort js_history) name_johnsmith = Some (fst keyJS).
+Proof. exact repaired_names_literal. Qed.
+Example C19_repaired_grouped_id_found :
+  unspaced id_dead_beef = id_deadbeef /\ get_key (run isort [Load keyH]) id_dead_beef = Some (fst keyH).
+Proof. exact repaired_grouped_id_found. Qed.
